@@ -382,10 +382,14 @@ def _find_clamps(f, gain, ceil):
                 g = _L2_PROG.functions.get(r.callee.get("usr"))
                 if g is not None and g.usr != f.usr and _returns_clamped(g, ceil):
                     out.append(n)
+        elif n.is_call() and n.callee and n.callee.get("usr") in _L2_CLAMPERS and not isinstance(gain, tuple) and n.callee.get("usr") != f.usr:
+            out.append(n)         # _clamp_gain(agc): a helper that does nothing to the gain but clamp it
     return out
 
 
 _L2_PROG = None
+_L2_CLAMPERS = set()      # usr of helpers that only clamp the gain state they are given
+_L2_UPDATERS = set()      # usr of internal helpers that update it and leave the clamp to their callers
 
 
 def _returns_clamped(g, ceil):
@@ -450,7 +454,11 @@ def _l2_core(f, gain, ceil, check_exit, skip_write):
         if n.k in ("BinaryOperator", "CompoundAssignOperator") and n.op and n.op.endswith("=") and n.op not in ("==", "!=", "<=", ">=") \
                 and n.c and _is_field(n.c[0], gain) and not skip_write(n):
             writes.append(n)
-    write_lhs = {w.c[0].strip_all().id for w in writes}
+    if not isinstance(gain, tuple):
+        for n in f.walk():
+            if n.id not in clamp_ids and n.is_call() and n.callee and n.callee.get("usr") in _L2_UPDATERS and n.callee.get("usr") != f.usr:
+                writes.append(n)
+    write_lhs = {w.c[0].strip_all().id for w in writes if not w.is_call()}
     for n in f.walk():
         if n.id in clamp_ids:
             continue
@@ -547,6 +555,51 @@ def rule_L2(prog, fixture=False):
     if not funcs:
         res.broken.append("anchor vanished: no function updates the AGC gain state (field '%s' of AgcImpl)" % gain)
         return res
+    # helpers that split the work: one only clamps, one only updates and leaves the clamp to whoever calls it
+    global _L2_CLAMPERS, _L2_UPDATERS
+    _L2_CLAMPERS, _L2_UPDATERS = set(), set()
+    from .rules_assume import _is_internal
+    for f in funcs:
+        cl = _find_clamps(f, gain, ceil)
+        cl_ids = {x.id for c in cl for x in c.walk()}
+        other = [n for n in f.walk() if n.id not in cl_ids and n.k in ("BinaryOperator", "CompoundAssignOperator") and n.op and n.op.endswith("=")
+                 and n.op not in ("==", "!=", "<=", ">=") and n.c and _is_field(n.c[0], gain)]
+        f.blocks
+        if cl and not other:
+            # every path through the helper passes a clamp: the clamp statement dominates the exit
+            if any(f.exit in f.blocks and f.block_of(c.role("cond") if c.k == "IfStmt" else c) is not None
+                   and f.block_dominates(f.block_of(c.role("cond") if c.k == "IfStmt" else c)[0], f.exit) for c in cl):
+                _L2_CLAMPERS.add(f.usr)
+
+    def main_verdict(f):
+        carriers = {}
+        transfers = set()
+        for n in f.walk():
+            if n.k == "BinaryOperator" and n.op == "=" and len(n.c) == 2 and _is_field(n.c[0], gain):
+                r = n.c[1].strip_all()
+                if r.k == "DeclRefExpr" and r.decl and r.decl.get("k") == "local":
+                    carriers[r.decl["id"]] = r.decl["n"]
+                    transfers.add(n.id)
+        verdicts = []
+        for vid, vname in sorted(carriers.items()):
+            verdicts.append(_l2_core(f, ("local", vid, "the local '%s' that carries the gain" % vname), ceil, False, lambda n: False))
+        verdicts.append(_l2_core(f, gain, ceil, True, lambda n: n.id in transfers))
+        return verdicts
+    # an internal helper that updates the state and leaves it unclamped hands the obligation to its callers: there its call is an
+    # update like any other, and a clamp (or a call of a clamping helper) has to follow
+    handed_on = {}
+    for f in list(funcs):
+        vs = main_verdict(f)
+        if any(v[0] == VIOLATED for v in vs) and _is_internal(f):
+            cs = [c for (c, _) in prog.callers_of(f.usr) if not c.file.endswith("coverage.cc") and c.usr != f.usr]
+            if cs:
+                _L2_UPDATERS.add(f.usr)
+                handed_on[f.usr] = cs
+    for u, cs in sorted(handed_on.items()):
+        for c in cs:
+            if c.usr not in {x.usr for x in funcs}:
+                funcs.append(c)
+    funcs = [f for f in funcs if f.usr not in _L2_UPDATERS]
     for f in funcs:
         key = "L2:" + fkey(f)
         where = "%s:%d" % (prog.rel(f.file), f.line)
